@@ -437,7 +437,8 @@ func (w *World) checkRev(wt *WTxn, ti int, changed bool, what string) (uint64, b
 			return 0, false
 		}
 	} else if rev != st.Rev {
-		w.violate("C09", "revision-changed", "T%d %s on %s changed nothing but the table revision went from %d to %d", wt.id, what, tc.M.Name, st.Rev, rev)
+		// C09's clause; also C03's "a rejected operation changes nothing" (the table revision is something)
+		w.violate(w.attr("C09", "C03"), "revision-changed", "T%d %s on %s changed nothing but the table revision went from %d to %d", wt.id, what, tc.M.Name, st.Rev, rev)
 		return 0, false
 	}
 	st.Rev = rev
@@ -974,7 +975,21 @@ func (w *World) unlockedWrite(t *simcore.Task, wt *WTxn) bool {
 	}
 	var err error
 	var what string
-	switch c.Choose(5) {
+	switch c.Choose(6) {
+	case 5:
+		// a change iterator asked for through a transaction that does not hold the table: refused, and the
+		// refusal must not need the table's lock (the caller holds other tables: C10)
+		what = "Changes"
+		cprop := "C03"
+		if w.prop == "C10" {
+			cprop = "C10"
+		}
+		var it statedb.ChangeIterator[*Obj]
+		w.guard(cprop, what, func() { it, err = tc.T.Changes(wt.txn) })
+		if it != nil && err == nil {
+			leakedIters = append(leakedIters, it)
+		}
+		w.probe("changes-on-unlocked-table")
 	case 0:
 		what = "Insert"
 		w.guard("C03", what, func() { _, _, err = tc.T.Insert(wt.txn, o) })
